@@ -447,10 +447,16 @@ def gen_points(rs, g, n):
         h = g.diag * 10.0 ** rs.uniform(-3.0, 0.0) * (1.0 if rs.uniform() < 0.5 else -1.0)
         f = int(rs.randint(nf))
         tri = np.array([g.A[f], g.B[f], g.C[f]])
-        if r < 0.20:
+        if r < 0.14:
             b = rs.dirichlet((1.0, 1.0, 1.0))
             p = b @ tri + g.nh[f] * h
             out.append((p, "over_face"))
+        elif r < 0.20:
+            # over the face, but only a sliver (barycentric 1e-7..1e-2) inside one edge
+            b = rs.dirichlet((1.0, 1.0))
+            e = 10.0 ** rs.uniform(-7.0, -2.0)
+            b = np.roll(np.array([e, b[0] * (1 - e), b[1] * (1 - e)]), int(rs.randint(3)))
+            out.append((b @ tri + g.nh[f] * h, "over_face_near_edge"))
         elif r < 0.40:
             k = int(rs.randint(3))
             a, b = tri[k], tri[(k + 1) % 3]
@@ -581,6 +587,19 @@ def b_contains(case, ctx):
 # ------------------------------------------------------------------------------------------ proximity
 
 
+def _prox_cause(g, p, tri, alld):
+    """root-cause class of a wrong nearest distance: proximity.closest_point treats the two best candidates as tied when
+    their SQUARED distances differ by < 1e-8 (absolute); triangles.closest_point assigns the edge region when the
+    un-normalized barycentric numerator (barycentric * (2*area)^2) is < 1e-13 (absolute)."""
+    d2 = np.sort(alld**2)
+    tie = len(d2) > 1 and (d2[1] - d2[0]) < 1e-8 and d2[0] > 1e-8
+    b = ob.projection_bary(g.A, g.B, g.C, tri, p)
+    snap = (b > 0).all() and b.min() * g.a2[tri] ** 2 < 1e-13 * (1 + 1e-6)
+    if tie and snap:
+        return "abs_tie_window+abs_tol_zero_region"
+    return "abs_tie_window" if tie else "abs_tol_zero_region" if snap else "no_cause_class"
+
+
 @body("C12.prox")
 def b_prox(case, ctx):
     with np.errstate(all="ignore"):
@@ -632,10 +651,8 @@ def b_prox(case, ctx):
             tol = 1e-9 * d + 64 * EPS * (g.cmax + np.abs(P[i]).max())
             if abs(dist[i] - d) > tol:
                 # root-cause class: is a second triangle inside the library's absolute tie window on SQUARED distances?
-                d2 = np.sort(alld**2)
-                tie = len(d2) > 1 and (d2[1] - d2[0]) < 1e-8 and d2[0] > 1e-8
                 cls = "too_large" if dist[i] > d else "too_small"
-                raise Violation(f"C12.prox|on_surface|distance|{cls}|{'abs_tie_window' if tie else 'no_tie'}", f"point {i} ({labels[i]}) {P[i].tolist()}: distance {dist[i]!r}, minimum over all {len(g.F)} triangles {d!r} (triangle {tri}, feature {feat}); reported triangle {int(tid[i])} is at {alld[int(tid[i])]!r}; diag {g.diag:.3g}")
+                raise Violation(f"C12.prox|on_surface|distance|{cls}|{_prox_cause(g, P[i], tri, alld)}", f"point {i} ({labels[i]}) {P[i].tolist()}: distance {dist[i]!r}, minimum over all {len(g.F)} triangles {d!r} (triangle {tri}, feature {feat}); reported triangle {int(tid[i])} is at {alld[int(tid[i])]!r}; diag {g.diag:.3g}")
             check(0 <= int(tid[i]) < len(g.F), "C12.prox|on_surface|triangle_range", str(int(tid[i])))
             dq = float(np.linalg.norm(cl[i] - P[i]))
             check(abs(dq - d) <= tol, "C12.prox|on_surface|point_not_at_distance", f"point {i} {P[i].tolist()}: closest {cl[i].tolist()} is {dq!r} away, distance is {d!r}")
@@ -652,9 +669,7 @@ def b_prox(case, ctx):
                 d, tri, q, feat, alld = ref[i]
                 tol = 1e-9 * d + 64 * EPS * (g.cmax + np.abs(P[i]).max())
                 if abs(abs(sd[i]) - d) > tol:
-                    d2 = np.sort(alld**2)
-                    tie = len(d2) > 1 and (d2[1] - d2[0]) < 1e-8 and d2[0] > 1e-8
-                    raise Violation(f"C12.prox|signed_distance|magnitude|{'abs_tie_window' if tie else 'no_tie'}", f"point {i} {P[i].tolist()}: |{sd[i]!r}| vs {d!r}")
+                    raise Violation(f"C12.prox|signed_distance|magnitude|{_prox_cause(g, P[i], tri, alld)}", f"point {i} {P[i].tolist()}: |{sd[i]!r}| vs {d!r}")
                 if not okw[i]:
                     continue
                 ins = abs(wn[i]) >= 0.5
@@ -677,7 +692,7 @@ KINDS = ["tetra", "box", "octa", "icos", "prism", "prism", "torus", "torus", "uv
 @st.composite
 def place_st(draw):
     return {
-        "log10s": draw(st.one_of(_f(-2.0, 3.0), st.sampled_from([-2.0, -1.0, 0.0, 1.0, 2.0, 3.0]))),
+        "log10s": draw(st.one_of(_f(-2.0, 3.0), _f(-2.0, -1.3), _f(2.3, 3.0), st.sampled_from([-2.0, -1.0, 0.0, 1.0, 2.0, 3.0]))),
         "rot": draw(st.sampled_from(["id", "quarter", "random", "random"])),
         "off": draw(st.sampled_from(["zero", "near", "near", "far"])),
         "rseed": draw(st.integers(0, 2**31 - 1)),
